@@ -456,7 +456,23 @@ func (l *Lab) park(point string, node uint64) {
 	}
 	l.parked[k] = true
 	l.frzMu.Unlock()
-	<-ch
+	// parked until the lab unfreezes — or until the node itself is on its way out (Leave waits
+	// for its task loops to end, so they must be able to reach their stop check)
+	t := time.NewTicker(time.Millisecond)
+	defer t.Stop()
+wait:
+	for {
+		select {
+		case <-ch:
+			break wait
+		case <-t.C:
+			if m := l.Member(node); m != nil {
+				if st := m.State(); st == chord.Leaving || st == chord.Left {
+					break wait
+				}
+			}
+		}
+	}
 	l.frzMu.Lock()
 	delete(l.parked, k)
 	l.frzMu.Unlock()
